@@ -10,28 +10,32 @@ THEOREMS = ['insert_resolves', 'insert_stable', 'insert_existing', 'insert_fresh
             'vga63_idempotent', 'vga63_identity', 'vga63_palette_idempotent', 'vga63_palette_identity',
             'ega_channel_idempotent', 'ega_palette_idempotent', 'ega_roundtrip_total',
             'export_import', 'export_import_hex', 'export_import_pal', 'export_import_gpl', 'export_import_ice',
-            'export_import_txt', 'export_import_outside_known', 'known_1_witness', 'gpl_unfixed_regex_refuted']
+            'export_import_txt', 'export_unchanged_without_breaks', 'verbatim_export_import_outside_known', 'known_1_witness',
+            'gpl_unfixed_regex_refuted']
 SWEEP_LEMMAS = ['PaletteProofs.chan63_sweep (256 byte values x 6 generated channel expression pairs: from63_*/to63_* and ega_from_*/ega_to_*)',
                 'PaletteFilesProofs.dec_sweep / hex2_sweep (print then parse of the 256 channel values through fmt_dec / parse_u32 and fmt_hex2 / hex2)',
                 'PaletteFilesProofs.class_sweep (generated \\d / \\s tables and comment characters on the 103 code points up to f)',
                 'PaletteEgaProofs.ega_tables_ok (generated EGA_COLOR_OFFSETS: 16 distinct offsets below 64 = length of EGA_PALETTE)']
 TRUSTED = ['Coq 8.16.1 kernel + vm_compute (finite sweeps, model evaluation); no axioms (Print Assumptions: closed)',
            'translator/gen_palette.py + vlib/rustsrc.py: tokenizer, template matcher, integer-expression translator (u8/u32 width semantics), '
-           'format!-string parser ({} {:3} {:02x} {name} on unsigned integers and Strings)',
+           'format!-string parser ({} {:3} {:02x} {name} on unsigned integers and Strings), parser of the text arguments (verbatim or through single_line) '
+           'and of `fn single_line` (`text.replace([chars], to)`)',
            'hand-written matchers of Model/PaletteFiles.v are equivalent to the pinned regular expressions under the regex crate (leftmost-first, Unicode \\d \\s from the '
            'regex-syntax tables): exercised by stage C on whole exported files and on per-line differential inputs',
            'UTF-8 coding of Strings (python encodes/decodes code points at the harness boundary)',
            'harness/src/c16.rs (observation vectors; the Rust-side oracle pal_oracle / pal_sweep63)']
-UNMODELLED = ['PaletteFormat::Ase (todo!() in the code; belongs to C02)',
+UNMODELLED = ['PaletteFormat::Ase (no file format behind it: load_palette returns Err, export_palette an empty vector; C02 palette_load_total)',
               'title/author/description/colour names read back by load_palette (only the RGB sequence is part of the property)',
               'Palette::import_palette (extension dispatch), get_checksum, set_color_hsl (floating point)',
               'invalid UTF-8 input to load_palette (-> Err before any line is looked at)']
 ASSUMPTIONS = ['Rust u8/u32 operators behave as the width semantics of the translator (shl drops high bits, `as u8` truncates)',
                'format! prints unsigned integers in decimal without sign, {:3} pads left with blanks, {:02x} lower-case hex padded with 0 (fmt_* in Lib/C16Lib.v, tied by stage C)',
+               '`str::replace([c1, c2], to)` replaces every occurrence of one of the characters by `to` (str_replace_chars in Lib/C16Lib.v, tied by stage C on texts with CR / LF)',
                'str::lines() as modelled (split on \\n, one \\r before it removed, last line without \\n kept as is; tied by stage C)',
                'a palette never has 2^32 colours or more (the statements carry plen p < 2^31 / < 2^32 explicitly)']
 RULE = ('palettes of 0..=300 colours (sizes biased to 0-3, 16, 64, 256, 257, 300) with title/author/description/colour names drawn from '
-        '{empty, ascii, with # or ;, leading digits, hex-looking, blank-only, trailing CR, non-ASCII incl. Unicode digits/spaces} for each of the 5 formats; '
+        '{empty, ascii, with # or ;, leading digits, hex-looking, blank-only, trailing CR, non-ASCII incl. Unicode digits/spaces, texts with line feeds / carriage returns '
+        'followed by something that reads as a colour line} for each of the 5 formats; '
         'operation sequences of 0..60 insert/set/lookup/push/fill/resize/clear ops on palettes of 0..=300 colours with colliding colours and '
         'indices around the length, with bit 31 set and 2^32-1; per-line differential inputs for the loaders built from digit runs (ASCII and Unicode, '
         'up to 12 digits), Unicode blanks, hex runs and punctuation, wrapped in valid/invalid magic lines with LF/CRLF endings; 6-bit codec on all 256 '
@@ -67,8 +71,8 @@ def meta(rng, allow_nl=False):
     else:
         alphabet = 'abcXYZ 019#;:-_.\t\ré٣ ' + ('\n' if allow_nl else '')
         s = ''.join(rng.choice(alphabet) for _ in range(rng.randint(1, 12)))
-    if allow_nl and rng.random() < 0.08:
-        s = s + '\n' + rng.choice(['1 2 3 x', 'aabbcc', 'FF010203', '#x', s])
+    if allow_nl and rng.random() < 0.15:
+        s = s + rng.choice(['\n', '\n', '\r\n', '\n\r']) + rng.choice(['1 2 3 x', 'aabbcc', 'FF010203', '#x', s])
     return s
 
 def pal_size(rng):
@@ -254,6 +258,9 @@ def correspondence(ctx):
     for desc in ('', '\r', ' ', 'name'):
         p = {'fmt': 'gpl', 'title': '', 'author': '', 'desc': desc, 'cols': [(1, 2, 3), (40, 50, 60)], 'names': {}}
         add('export+import gpl', exp_case(p), exp_expr(p))
+    # the regression inputs of the fixed line-feed defect: a colour line hidden in every text, for every format
+    for p in line_break_regressions():
+        add('export+import ' + p['fmt'], exp_case(p), exp_expr(p))
     for k in range(ctx.n(800, 12000)):
         fmt = FORMATS[k % 5]
         text = gen_file(rng, fmt)
@@ -307,8 +314,10 @@ def search(ctx, broken):
     for k in range(ctx.n(1500, 20000)):
         p = gen_palette(rng, allow_nl=False, fmt=FORMATS[k % 5])
         add(exp_case(p), ('rt', p))
-    # the known class (line feed in a text the format writes): the witness of Props/C16.v known_1_witness, then random members
-    add(exp_case(KNOWN_1_WITNESS), ('rt', KNOWN_1_WITNESS))
+    # the class of the FIXED finding metadata-line-feed-… (line feed in a text the format writes): regression cases - the witness of
+    # Props/C16.v known_1_witness, a colour line hidden in every text of every format, then random members; all must round-trip now
+    for p in line_break_regressions():
+        add(exp_case(p), ('rt', p))
     for k in range(ctx.n(150, 2000)):
         p = gen_palette(rng, allow_nl=True, fmt=FORMATS[k % 5])
         add(exp_case(p), ('rt', p))
@@ -348,11 +357,25 @@ def search(ctx, broken):
     return {'cases': len(cases), 'failures': failures, 'distinct_nontrivial': len({c for c in cases if len(c.split()) > 2}),
             'samples': [cases[0][:300], cases[-3][:300]], 'six_bit_colours_swept': 64 ** 3}
 
-KNOWN_1_SIG = 'metadata-line-feed-roundtrip-colours-differ'
+KNOWN_1_SIG = 'metadata-line-feed-roundtrip-colours-differ'     # status `fixed` in known_findings.d/C16.json: reported as a VIOLATION when seen
 KNOWN_1_WITNESS = {'fmt': 'gpl', 'title': 'x\n1 2 3 y', 'author': '', 'desc': '', 'cols': [(9, 9, 9)], 'names': {}}
 
+def line_break_regressions():
+    out = [KNOWN_1_WITNESS]
+    hidden = {'gpl': '1 2 3 y', 'ice': 'aabbcc', 'txt': 'FF010203', 'hex': 'aabbcc', 'pal': '1 2 3'}
+    for fmt in FORMATS:
+        for brk in ('\n', '\r\n', '\r', '\n\n'):
+            t = 'x' + brk + hidden[fmt]
+            for where in ('title', 'author', 'desc', 'name'):
+                p = {'fmt': fmt, 'title': '', 'author': '', 'desc': '', 'cols': [(9, 9, 9), (8, 7, 6)], 'names': {}}
+                if where == 'name': p['names'] = {1: t}
+                else: p[where] = t
+                out.append(p)
+    return out
+
 def wf(p):
-    """negation of the known class KnownC16_1 (Coq: meta_nl_free): no line feed in a text the format writes"""
+    """negation of the class KnownC16_1 of the fixed finding (Coq: meta_nl_free): no line feed in a text the format writes.
+    Only used to name the failure: a round-trip failure inside the class carries the signature of the fixed finding"""
     if p['fmt'] in ('hex', 'pal'): return True
     texts = [p['title'], p['author'], p['desc']] + (list(p['names'].values()) if p['fmt'] == 'ice' else [])
     return all('\n' not in s for s in texts)
@@ -401,9 +424,11 @@ LEVEL_TEXT = ('Machine-checked proof (Coq, closed under the global context), for
               'sequence of insert/set/lookup/push/fill/resize/clear operations an index keeps its colour until a set on that index (or a shrink below it). '
               'The 6-bit VGA expansion/reduction expressions extracted from from_63/as_vec_63 and from_ega_data/to_ega_data are idempotent on all bytes and '
               'the identity on 0..63, lifted to whole palettes; export_palette followed by load_palette returns the same RGB sequence for Hex, JASC PAL, '
-              'GIMP GPL, ICE and Paint.NET TXT whenever title/author/description/names contain no line feed. The line printers are generated from the '
-              'format! strings, the loaders are hand-written matchers pinned to the source regexes; after the fix of the GPL colour regex (commit in /repo) '
-              'nothing of the property is left outside except the regex-crate equivalence, which is a tested oracle.')
+              'GIMP GPL, ICE and Paint.NET TXT for EVERY title/author/description/colour name (the exporters write line breaks in these texts as blanks: '
+              'single_line, generated from the source; files of palettes without line breaks are proved unchanged). The line printers are generated from the '
+              'format! strings and their argument lists, the loaders are hand-written matchers pinned to the source regexes; after the fixes of the GPL colour '
+              'regex and of the verbatim copy of texts with line feeds (commits in /repo) nothing of the property is left outside except the regex-crate '
+              'equivalence, which is a tested oracle.')
 LEVEL_NOTE = ('Trusted: Coq kernel + vm_compute; the python translator (templates, expression and format-string translation); equivalence of the hand-written '
               'matchers with the regex crate on the pinned regexes (differential stage C, Unicode classes taken from the regex-syntax tables); UTF-8 coding; no axioms.')
 TECHNIQUE = ('Coq proof (list induction over colours and operation sequences; complete vm_compute sweeps of the 256 channel values for codec and number printing); '
